@@ -138,6 +138,9 @@ def run(ctx, progs):
     for cfg, prog in progs.items():
         o1(ctx, prog, cfg)
         o2(ctx, prog, cfg)
+        from .. import shapes
+
+        shapes.viewcmp1(ctx, prog, cfg, groups=[["CircularBuffer::as_slices", "CircularBuffer::as_mut_slices", "CircularBuffer::make_contiguous"]])
 
 
 def o1(ctx, prog, cfg):
